@@ -38,7 +38,7 @@ class C02(Harness):
 
     @property
     def bounds(self):
-        return {'quick': {'schemas': ['S1', 'S2', 'S3', 'S4', 'S5', 'S7', 'S9', 'S13', 'S14'], 'max_lines': 3, 'value_len': '1-3'},
+        return {'quick': {'schemas': ['S1', 'S2', 'S3', 'S4', 'S5', 'S7', 'S9', 'S13', 'S14', 'S15'], 'max_lines': 3, 'value_len': '1-3'},
                 'thorough': {'schemas': gen.THOROUGH, 'max_lines': 4, 'value_len': '1-3'}}
 
     def budget(self, tier):
@@ -47,7 +47,7 @@ class C02(Harness):
     def units(self, tier):
         us = []
         if tier == 'quick':
-            schemas = ['S1', 'S2', 'S3', 'S4', 'S5', 'S7', 'S9', 'S13', 'S14']
+            schemas = ['S1', 'S2', 'S3', 'S4', 'S5', 'S7', 'S9', 'S13', 'S14', 'S15']
             shapes = [s for s in gen.shapes(3) if 'e' not in s or len(s) <= 2]
             shapes += ['ukkc', 'okkc', 'uufcc'[:0] or 'uucc', 'ukuc'[:0] or 'kukc', 'ukck']
         else:
